@@ -40,12 +40,17 @@ import sys
 
 class Frag:
     def __init__(self, name, file, fn=None, impl=None, cfg=None, expr=None, params=(), bind=None,
-                 atomic=False, width=64, sub=None, ctor=None, generic=None, doc="", nth=0, num="N"):
+                 atomic=False, width=64, sub=None, ctor=None, generic=None, doc="", nth=0, num="N",
+                 out=None, all_sites=False, try_into_bits=32, cast64=False):
         self.name, self.file, self.fn, self.impl, self.cfg = name, file, fn, impl, cfg
         self.expr, self.params, self.bind = expr, list(params), dict(bind or {})
         self.atomic, self.width, self.sub, self.ctor = atomic, width, sub, dict(ctor or {})
         self.generic = dict(generic or {})   # const generic name -> coq param name
         self.doc, self.nth, self.num = doc, nth, num
+        self.out = list(out or [])          # rust paths (assigned fields) whose final values are the result
+        self.all_sites = all_sites          # anchored expression: every occurrence must translate identically
+        self.try_into_bits = try_into_bits
+        self.cast64 = cast64                # `as u64` truncates (the operand is a u128)
 
 
 ST = "compio-executor/src/task/state.rs"
@@ -108,6 +113,52 @@ FRAGS = [
     Frag("slice_end_or_cap", SL, fn="end_or_cap", impl=r"impl<T: IoBufMut> Slice<T>", num="nat",
          params=[("cap0", "nat"), ("e", "option nat")],
          bind={"self.buffer.buf_capacity()": "cap0", "self.end": "e"}, doc="Slice::end_or_cap"),
+    # ---- C11 / C12: Buffer::need_flush (the eager-flush threshold) ------------------
+    Frag("buffer_need_flush", "compio-io/src/buffer.rs", fn="need_flush", impl=r"impl<B: IoBufMut> Buffer<B>", num="nat",
+         params=[("cap0", "nat"), ("len0", "nat")],
+         bind={"self.buf_mut()": "@skip", "self.buf_mut().buf_capacity()": "cap0", "self.buf_mut().buf_len()": "len0"},
+         doc="Buffer::need_flush"),
+    # ---- C13: the two guards and the result of LengthDelimited::extract --------------
+    Frag("ld_too_short", "compio-io/src/framed/frame.rs", expr=r"^\s*if (buf\.len\(\) < self\.length_field_len) \{",
+         params=[("blen", "N"), ("lfl", "N")], bind={"buf.len()": "blen", "self.length_field_len": "lfl"},
+         doc="LengthDelimited::extract: `not even the length field yet`"),
+    Frag("ld_incomplete", "compio-io/src/framed/frame.rs", expr=r"^\s*if (buf\.len\(\) - self\.length_field_len < len) \{",
+         params=[("blen", "N"), ("lfl", "N"), ("len", "N")], sub="trunc",
+         bind={"buf.len()": "blen", "self.length_field_len": "lfl", "len": "len"},
+         doc="LengthDelimited::extract: `payload not complete` (the subtraction is guarded by the first test)"),
+    Frag("ld_frame", "compio-io/src/framed/frame.rs", expr=r"^\s*Ok\(Some\((Frame::new\(self\.length_field_len, len, 0\))\)\)",
+         params=[("lfl", "N"), ("len", "N")], bind={"self.length_field_len": "lfl", "len": "len"},
+         ctor={"Frame::new": [0, 1, 2]}, doc="LengthDelimited::extract: the frame (prefix, payload, suffix)"),
+    # ---- C10 / C07: BufferRef::set_capacity --------------------------------------------
+    Frag("bufref_set_capacity", "compio-driver/src/buffer_pool.rs", fn="set_capacity", impl=r"impl BufferRef",
+         params=[("cap", "N"), ("full_cap", "N"), ("cap0", "N"), ("len0", "N")],
+         bind={"cap": "cap", "self.full_cap": "full_cap", "self.cap": "cap0", "self.len": "len0"},
+         out=["self.cap", "self.len"], doc="BufferRef::set_capacity: (new cap, new len)"),
+    # ---- C08 / C20: request length of the io_uring read / write / send / recv SQEs -----
+    Frag("iour_request_len", "compio-driver/src/sys/op/general/iour.rs", expr=r"^\s*(slice\.len\(\)\.try_into\(\)\.unwrap_or\(u32::MAX\)),",
+         params=[("n", "N")], bind={"slice.len()": "n"}, all_sites=True,
+         doc="length field of the SQE built from a buffer of n bytes (general ops)"),
+    Frag("iour_request_len_sock", "compio-driver/src/sys/op/socket/iour.rs", expr=r"^\s*(slice\.len\(\)\.try_into\(\)\.unwrap_or\(u32::MAX\)),",
+         params=[("n", "N")], bind={"slice.len()": "n"}, all_sites=True,
+         doc="length field of the SQE built from a buffer of n bytes (socket ops)"),
+    # ---- C17: the slot reservation of AsyncifyPool::dispatch ---------------------------
+    Frag("asyncify_reserve", "compio-driver/src/asyncify.rs", expr=r"^\s*(\(n < self\.thread_limit\)\.then_some\(n \+ 1\))\s*$",
+         params=[("n", "nat"), ("limit", "nat")], bind={"n": "n", "self.thread_limit": "limit"}, num="nat",
+         doc="the closure of counter.fetch_update in AsyncifyPool::dispatch"),
+    # ---- C19: round-robin advance of ProcessGroup::send ---------------------------------
+    Frag("pg_next_index", "compio-actor/src/process_group/mod.rs", expr=r"^\s*index = (\(index \+ 1\) % state\.members\.len\(\));",
+         params=[("index", "nat"), ("len0", "nat")], bind={"index": "index", "state.members.len()": "len0"}, num="nat",
+         doc="ProcessGroup::send: the member tried after a full one"),
+    # ---- C09: Interval::tick arithmetic (Instants and Durations as nanosecond counts) ---
+    Frag("interval_rem", "compio-runtime/src/time/future.rs", expr=r"^\s*let rem = (\(now - self\.start\)\.as_nanos\(\) % self\.period\.as_nanos\(\));",
+         params=[("now", "N"), ("start", "N"), ("period", "N")], sub="trunc",
+         bind={"now": "now", "self.start": "start", "self.period": "period"},
+         doc="Interval::tick: nanoseconds into the current period (Instant - Instant saturates)"),
+    Frag("interval_next", "compio-runtime/src/time/future.rs",
+         expr=r"^\s*let next = (now \+ self\.period\s*- Duration::new\(\(rem / 1_000_000_000\) as u64, \(rem % 1_000_000_000\) as u32\));",
+         params=[("now", "N"), ("period", "N"), ("rem", "N")], sub="trunc", cast64=True,
+         bind={"now": "now", "self.period": "period", "rem": "rem"},
+         doc="Interval::tick: the instant of the next tick"),
 ]
 
 # extra fragments are appended by the property builders below this line
@@ -311,7 +362,20 @@ class P:
             e = self.expr()
             self.eat(";")
             return None if skip else ("let", ("pvar", name), e)
+        if t == "return":
+            self.eat()
+            e = None if self.peek() == ";" else self.expr()
+            if self.peek() == ";":
+                self.eat()
+            return None if skip else ("return", e)
         e = self.expr()
+        if self.peek() in ("=", "+=", "-=", "|=", "&="):
+            op = self.eat()
+            r = self.expr()
+            self.eat(";")
+            if op != "=":
+                r = ("bin", op[0], e, r)
+            return None if skip else ("assign", e, r)
         if self.peek() == ";":
             self.eat()
             return None if skip else ("expr", e)
@@ -576,6 +640,8 @@ class Gen:
                 b = self.f.bind[fp]
                 if b == "@word":
                     raise TrError("the atomic cell is used outside an atomic operation")
+                if b == "@skip":
+                    return "@skip", "skip"
                 ty = dict(self.f.params).get(b, "N")
                 return b, ("opt" if ty.startswith("option") else "bool" if ty == "bool" else "num")
             if fp in self.f.generic:
@@ -598,6 +664,8 @@ class Gen:
             t, ty = self.ex(e[1], env)
             tgt = e[2]
             bits = {"u8": 8, "u16": 16, "u32": 32, "i32": 32}.get(tgt)
+            if tgt == "u64" and self.f.cast64 and S == "N":
+                return "(N.modulo %s (2 ^ 64))" % t, "num"
             if tgt in ("usize", "u64", "i64", "u128", "_"):
                 return t, ty
             if bits and S == "N":
@@ -651,6 +719,9 @@ class Gen:
                 return ("(" + ", ".join(ts) + ")" if len(ts) > 1 else ts[0]), "tuple"
             if name in WRAPPERS and len(args) == 1:
                 return self.ex(args[0], env)
+            if name == "Duration::new" and len(args) == 2 and S == "N":
+                # a Duration is its nanosecond count
+                return "(N.add (N.mul %s 1000000000%%N) %s)" % (self.ex(args[0], env)[0], self.ex(args[1], env)[0]), "num"
             raise TrError("unsupported call %s" % name)
         if k == "method":
             recv, name, args = e[1], e[2], e[3]
@@ -659,6 +730,11 @@ class Gen:
                 a, _ = self.ex(recv, env)
                 b, _ = self.ex(args[0], env)
                 return "(%s.%s %s %s)" % (M, name, a, b), "num"
+            if name == "unwrap_or" and recv[0] == "method" and recv[2] == "try_into" and not recv[3]:
+                a, _ = self.ex(recv[1], env)
+                b, _ = self.ex(args[0], env)
+                lim = self.num(2 ** self.f.try_into_bits - 1)
+                return "(if %s.leb %s %s then %s else %s)" % (M, a, lim, a, b), "num"
             if name == "unwrap_or":
                 a, _ = self.ex(recv, env)
                 b, tb = self.ex(args[0], env)
@@ -681,8 +757,12 @@ class Gen:
             if name in SNAP_METHODS and not args:
                 a, _ = self.ex(recv, env)
                 return "(%s %s)" % (SNAP_METHODS[name], a), ("num" if name == "count" else "bool")
-            if name in ("clone", "into", "get") and not args:
+            if name in ("clone", "into", "get", "as_nanos") and not args:
                 return self.ex(recv, env)
+            if name == "then_some" and len(args) == 1:
+                a, _ = self.ex(recv, env)
+                b, _ = self.ex(args[0], env)
+                return "(if %s then Some %s else None)" % (a, b), "opt"
             raise TrError("unsupported method .%s()" % name)
         if k == "if":
             c, _ = self.ex(e[1], env)
@@ -732,14 +812,43 @@ class Gen:
             return "(" + ", ".join(self.pat(x, env) for x in p[1]) + ")"
         raise TrError("pattern")
 
-    def blk(self, b, env):
+    def blk(self, b, env, top=False):
         """pure block -> (term, type)"""
         assert b[0] == "block"
         env = dict(env)
+        return self.stmts(list(b[1]), b[2], env, top)
+
+    def result(self, tail, env, top):
+        if top and self.f.out:
+            ts = []
+            for pth in self.f.out:
+                if pth in env:
+                    ts.append(env[pth][0])
+                elif pth in self.f.bind:
+                    ts.append(self.f.bind[pth])
+                else:
+                    raise TrError("out path %s is not bound" % pth)
+            return ("(" + ", ".join(ts) + ")" if len(ts) > 1 else ts[0]), "tuple"
+        if tail is None:
+            return "tt", "unit"
+        return self.ex(tail, env)
+
+    def stmts(self, ss, tail, env, top):
         out = []
-        for s in b[1]:
+        while ss:
+            s = ss.pop(0)
             if s[0] == "let":
                 t, ty = self.ex(s[2], env)
+                if t == "@skip":
+                    if s[1][0] != "pvar":
+                        raise TrError("skipped binding needs a plain name")
+                    # alias: paths through the new name resolve like paths through the bound one
+                    fp = flat_path(s[2])
+                    for k in list(self.f.bind):
+                        if k.startswith(fp + "."):
+                            self.f.bind[s[1][1] + k[len(fp):]] = self.f.bind[k]
+                    self.f.bind[s[1][1]] = "@skip"
+                    continue
                 if s[1][0] == "pvar":
                     v = self.fresh(re.sub(r"\W", "_", s[1][1]) + "_")
                     out.append("let %s := %s in" % (v, t))
@@ -747,13 +856,30 @@ class Gen:
                 else:
                     pt = self.pat(s[1], env)
                     out.append("let '%s := %s in" % (pt, t))
+            elif s[0] == "assign":
+                fp = flat_path(s[1])
+                if fp is None or (fp not in env and fp not in self.f.bind):
+                    raise TrError("assignment to an unbound place")
+                t, ty = self.ex(s[2], env)
+                v = self.fresh(re.sub(r"\W", "_", fp) + "_")
+                out.append("let %s := %s in" % (v, t))
+                env[fp] = (v, ty)
+            elif s[0] == "return":
+                t, ty = self.result(s[1], env, top)
+                return ("(" + " ".join(out + [t]) + ")" if out else t), ty
             elif s[0] == "expr":
-                if self.droppable(s[1]):
+                e = s[1]
+                if self.droppable(e):
                     continue
+                if e[0] == "if" and e[3] is None and e[2][1] and e[2][1][-1][0] == "return" and e[2][2] is None:
+                    # `if c { ..; return [e]; }  rest`  ==  if c then .. e else rest
+                    c, _ = self.ex(e[1], env)
+                    a, ta = self.stmts(list(e[2][1]), None, dict(env), top)
+                    r, tr = self.stmts(ss, tail, dict(env), top)
+                    t = "(if %s then %s else %s)" % (c, a, r)
+                    return ("(" + " ".join(out + [t]) + ")" if out else t), tr
                 raise TrError("expression statement with an effect in a pure fragment")
-        if b[2] is None:
-            return " ".join(out + ["tt"]), "unit"
-        t, ty = self.ex(b[2], env)
+        t, ty = self.result(tail, env, top)
         return ("(" + " ".join(out + [t]) + ")" if out else t), ty
 
     def droppable(self, e):
@@ -877,6 +1003,14 @@ def translate(frag, repo, consts):
         ms = re.findall(frag.expr, src, re.M)
         if len(ms) <= frag.nth:
             raise TrError("anchored expression %r not found" % frag.expr)
+        if frag.all_sites:
+            texts = set()
+            for m in ms:
+                g0 = Gen(frag, consts)
+                texts.add(g0.blk(("block", [], P(tokenize(m)).expr()), {})[0])
+            if len(texts) != 1:
+                raise TrError("the %d occurrences of %r do not translate to one term: %s" % (len(ms), frag.expr, sorted(texts)))
+            frag.doc += " [%d sites]" % len(ms)
         body = ("block", [], P(tokenize(ms[frag.nth])).expr())
         sig = ""
     else:
@@ -894,7 +1028,7 @@ def translate(frag, repo, consts):
         term, ty = g.ablk(body, {}, "w0")
         head = "Definition %s %s (w0 : N) :=" % (frag.name, ps)
     else:
-        term, ty = g.blk(body, {})
+        term, ty = g.blk(body, {}, top=True)
         head = "Definition %s %s :=" % (frag.name, ps)
     head = re.sub(r"\s+", " ", head)
     return "(* %s — %s%s *)\n%s\n  %s." % (frag.doc or frag.name, frag.file,
